@@ -194,4 +194,45 @@ theorem closed_init (regs) (lines : List Int) (b : Blk) (l : Int) : closed (St.i
 theorem pend_init (regs) (threads : List Nat) (b : Blk) (l : Int) : pend (St.init regs) threads b l = 0 := by
   simp [pend, St.init]
 
+/-- a callback invocation of another thread commutes with `disable()` of thread `t` -/
+theorem cb_clearThread_comm (s : St) (t : Nat) (e : Ev) (h : e.t ≠ t) :
+    cb (s.clearThread t) e = (cb s e).clearThread t := by
+  unfold cb
+  have hl : (s.clearThread t).last e.t e.b = s.last e.t e.b := by simp [St.clearThread, h]
+  by_cases hm : (e.b, e.l) ∈ s.regs
+  · have hm' : (e.b, e.l) ∈ (s.clearThread t).regs := hm
+    rw [if_pos hm, if_pos hm']
+    unfold St.closePending
+    rw [hl]
+    cases hls : s.last e.t e.b with
+    | none =>
+      simp only [St.setLast, St.clearThread]
+      congr 1
+      funext t' b'
+      by_cases h1 : t' = t
+      · subst h1; simp
+        intro h2; exact absurd h2.symm h
+      · simp [h1]
+    | some p =>
+      obtain ⟨old, st⟩ := p
+      simp only [St.setLast, St.clearThread, St.bump]
+      congr 1
+      funext t' b'
+      by_cases h1 : t' = t
+      · subst h1; simp
+        intro h2; exact absurd h2.symm h
+      · simp [h1]
+  · have hm' : (e.b, e.l) ∉ (s.clearThread t).regs := hm
+    rw [if_neg hm, if_neg hm']
+
+/-- … and so does any run of events of other threads -/
+theorem run_clearThread_comm (evs : List Ev) (s : St) (t : Nat) (h : ∀ e ∈ evs, e.t ≠ t) :
+    run (s.clearThread t) evs = (run s evs).clearThread t := by
+  induction evs generalizing s with
+  | nil => rfl
+  | cons e es ih =>
+    simp only [run, List.foldl_cons] at ih ⊢
+    rw [cb_clearThread_comm s t e (h e (by simp))]
+    exact ih (cb s e) (fun e' he' => h e' (by simp [he']))
+
 end LPVerif.Core
